@@ -16,7 +16,7 @@ THEOREMS = ['StoreIO.c14_ext_idempotent', 'StoreIO.c14_same_path', 'StoreIO.c14_
             'StoreIO.c14_load_and_close', 'StoreIO.loadDs_readers', 'StoreIO.c14_df_tables',
             # save_merge_ds / Harvester.delete_ds as translated (state skeletons, Refine/StoreIO.lean)
             'Harvest.saveMergeDs_eq_spec', 'Harvest.saveMergeDs_refines', 'Harvest.saveMergeDs_default_engine',
-            'Harvest.hvDeleteDs_refines', 'Harvest.hvDeleteDs_backup']
+            'Harvest.hvDeleteDs_refines', 'Harvest.hvDeleteDs_dispatch', 'Harvest.hvDeleteDs_backup']
 ANCHORS = ['engineExt', 'extRuleSubstring', 'extAppendCount', 'saveDsExtends', 'loadDsExtends', 'attrExempt',
            'attrNoneStr', 'attrTrueStr', 'attrFalseStr', 'deleteRemoveExtended', 'saveMergeExistsExtended',
            'saveMergeLoadsWithEngine', 'saveMergeTrue', 'saveMergeFalse', 'saveMergeNone',
